@@ -899,6 +899,8 @@ fn run(run: &mut Run) {
     let n = literal_libs().len() as u32 + 1;
     run.literals("literals", &(0..n).map(|i| vec![0, i]).collect::<Vec<_>>(), &literal_case);
     run.explore("compile", run.tier.pick(300_000, 4_000_000), 700, &main_case);
+    // the same, each case in a thread of its own (per-thread state of the code starts from scratch)
+    run.explore_fresh("compile", run.tier.pick(3_000, 40_000), 700, &main_case);
     // flipped layers with asymmetric patterns: tracks are numbered in the order their period lists them
     run.explore("compile-asymmetric-flip", run.tier.pick(120_000, 1_500_000), 700, &asym_case);
     // cut requests over the outline edge or over each other: refused or realised, never ignored
